@@ -7,8 +7,14 @@ PROPS = {}
 
 PROPS["C18"] = {
     "harnesses": [
+        {"pkg": "api", "name": "VerifC18_Stall", "quick": {"d": 0}, "thorough": {"d": 0}, "native": False,
+         "bounds": {"follower": "websocket client that never reads (socket write blocks for ever)", "lines written": "10 or 300 (the follower's queue holds 256)"}},
         {"pkg": "pclog", "name": "VerifC18_Range", "quick": {}, "thorough": {},
          "bounds": {"len": "[0,1100] symbolic", "offset": "full int64", "limit": "full int64"}},
+        {"pkg": "pclog", "name": "VerifC18_Write", "quick": {}, "thorough": {},
+         "bounds": {"size": "[0,3] symbolic", "pre-state": "0, 1, size, size+slack-1, size+slack lines held", "step": "one Write"}},
+        {"pkg": "pclog", "name": "VerifC18_Follow", "quick": {"d": 3}, "thorough": {"d": 4},
+         "bounds": {"writes": 4, "subscribe": "after any number of them", "tail": "full int64", "unsubscribe": "after any number of writes or never", "concurrent writer": "yes (delay bound d)"}},
     ],
     "stubs": [],
     "assumptions": ["buffer length <= size+slack = 1100 (the default configuration's maximum)"],
